@@ -384,8 +384,15 @@ class Uri(six.text_type):
 
     def __eq__(self, other):
         if not isinstance(other, Uri):
-            return NotImplemented
+            # Not NotImplemented: the reflected str.__eq__ would answer True
+            # for a plain string (or a Bin) holding the same text.
+            return False
         return super(Uri, self).__eq__(other)
+
+    def __ne__(self, other):
+        return not (self == other)
+
+    __hash__ = six.text_type.__hash__
 
 
 class Bin(six.text_type):
@@ -401,8 +408,15 @@ class Bin(six.text_type):
 
     def __eq__(self, other):
         if not isinstance(other, Bin):
-            return NotImplemented
+            # Not NotImplemented: the reflected str.__eq__ would answer True
+            # for a plain string (or a Uri) holding the same text.
+            return False
         return super(Bin, self).__eq__(other)
+
+    def __ne__(self, other):
+        return not (self == other)
+
+    __hash__ = six.text_type.__hash__
 
 
 class XStr(object):
